@@ -182,6 +182,14 @@ func ReplStringOK(r string, ncap int) bool {
 // Gsub is string.gsub(s, pattern, repl, n); hasN=false means n absent.  calls
 // records the argument lists of every table query / function call.
 func (x *Subject) Gsub(r Repl, hasN bool, n int) (res string, count int, calls [][]Val) {
+	res, count, calls, _ = x.GsubX(r, hasN, n)
+	return
+}
+
+// GsubX is Gsub plus one fact about the input used to classify inputs:
+// emptyOut = at least one match was replaced and the output built so far was
+// still empty right after the last replacement.
+func (x *Subject) GsubX(r Repl, hasN bool, n int) (res string, count int, calls [][]Val, emptyOut bool) {
 	var out []byte
 	src := 0
 	last := -1
@@ -191,8 +199,10 @@ func (x *Subject) Gsub(r Repl, hasN bool, n int) (res string, count int, calls [
 			count++
 			whole := x.S[src:m.End]
 			caps := x.Captures(src, m, true)
+			replaced := false
 			switch r.Kind {
 			case 's':
+				replaced = true
 				for i := 0; i < len(r.S); i++ {
 					c := r.S[i]
 					if c != '%' {
@@ -220,6 +230,7 @@ func (x *Subject) Gsub(r Repl, hasN bool, n int) (res string, count int, calls [
 				calls = append(calls, args)
 				if rep, use := r.Lookup(args); use {
 					out = append(out, rep...)
+					replaced = true
 				} else {
 					out = append(out, whole...)
 				}
@@ -227,9 +238,13 @@ func (x *Subject) Gsub(r Repl, hasN bool, n int) (res string, count int, calls [
 				calls = append(calls, caps)
 				if rep, use := r.Lookup(caps); use {
 					out = append(out, rep...)
+					replaced = true
 				} else {
 					out = append(out, whole...)
 				}
+			}
+			if replaced {
+				emptyOut = len(out) == 0
 			}
 			src, last = m.End, m.End
 		} else if src < len(x.S) {
@@ -243,7 +258,7 @@ func (x *Subject) Gsub(r Repl, hasN bool, n int) (res string, count int, calls [
 		}
 	}
 	out = append(out, x.S[src:]...)
-	return string(out), count, calls
+	return string(out), count, calls, emptyOut
 }
 
 // PlainFind is string.find(s, p, init, true).
